@@ -30,7 +30,7 @@ XDIR = os.path.join(vlib.COQ, "xcheck")
 
 # property -> engines whose extraction it relies on
 ENGINE_OF = {
-    "C01": ["build"], "C02": ["build"], "C03": ["walker"], "C04": ["walker", "tree"], "C05": ["walker", "build"],
+    "C01": ["build", "glob"], "C02": ["build"], "C03": ["walker"], "C04": ["walker", "tree"], "C05": ["walker", "build"],
     "C06": ["tree"], "C07": ["store"], "C08": ["store"], "C09": ["main"], "C10": ["lock"], "C11": ["analysis"],
     "C12": ["select"], "C13": ["build"], "C14": ["build"], "C15": ["build"], "C16": ["loader"], "C17": ["main"],
     "C18": ["walker"], "C19": ["select"], "C20": ["select"],
@@ -1025,6 +1025,84 @@ def conv_walker(line, st):
 
 
 ENGINES["walker"] = {"imports": "Str Graph Walker", "gen": gen_walker, "conv": conv_walker}
+
+
+# ------------------------------------------------------------------ engine glob (Glob.v; ocaml/glob/driver.ml)
+def gen_glob(rng, n):
+    """The three line kinds of the glob stage of C01 over tools/c01_glob.py's own generators: its pattern set (exhaustive short
+    strings, structured segments, random strings over the full alphabet) plus fresh joins of its structured segments, its file
+    paths, its resolve cases; a few lines the driver rejects (wrong arity, a field that is not hex)."""
+    import c01_glob as cg
+    pats = cg.gen_patterns(rng, "quick")
+    paths = cg.match_paths()
+    good = cg.resolve_entries(pats)
+    plain = [p for p in pats if cg.valid_path(p) and not (set(p) & set("*?[]{}\\"))]
+
+    # what the pools above hold rarely or not at all: range bounds, runs of stars, the borders of Glob.covered
+    edge = ["[a-b]", "[a-c]", "[b-a]", "[a-a]b", "*[a-b]", "[!a-b]", "[^a-b]b", "[a\\-b]", "[--a]", "[a-\\b]", "[+-0]", "[/]", "[a/b]", "[{]", "[a,b]",
+            "a***", "***", "****", "**a", "a**", "**/a***", "{a,b}***", "*/***", "**/**", "**/**/a", "a/**", "a/**/b", "**/", ".", "..",
+            "a/./b", "a/../b", "a//b", "/a", "a/", "\\a", "\\.", "a\\", "{a,{b,c}}", "{a}{b}", "{a,b}{a,b}", "{[a-b],.a}", "{a,b", "a,b}", "[a", "a]",
+            "[a-b].txt", "src/[a-b].*", "[a-a].txt", "[a-b]/a", "b/[a-a]", "src/sub/[a-c].txt", "lib/[w-x]/*"]
+
+    def pat():
+        k = rng.below(9)
+        if k == 8:
+            return rng.choice(edge) if rng.chance(2, 3) else rng.choice(edge) + "/" + rng.choice(cg.STRUCT_SEGS)
+        if k < 3:
+            return "/".join(rng.choice(cg.STRUCT_SEGS) for _ in range(1 + rng.below(3)))
+        if k == 3:
+            return rng.choice(cg.ENTRY_POOL)
+        return rng.choice(plain) if k == 4 else rng.choice(pats)
+
+    def inst(p):
+        """a path the pattern is likely to select (a guess: the driver says whether it does)"""
+        p = re.sub(r"\{([^{},]*)[^{}]*\}", lambda m: m.group(1) or rng.choice(["", "a"]), p)
+        p = re.sub(r"\[([!^]?)((?:\\.|[^\]\\])+)\]", lambda m: rng.choice(
+            [c for c in "abc." if c not in m.group(2)] or ["z"] if m.group(1) else [c for c in m.group(2) if c not in "-\\"] or ["-"]), p)
+        p = re.sub(r"\*\*", lambda m: rng.choice(["a", "a/b", "src/sub"]), p)
+        p = re.sub(r"(?<!\\)\*", lambda m: rng.choice(["", "a", "b.a", "c"]), p)
+        return re.sub(r"\\(.)", r"\1", re.sub(r"(?<!\\)\?", "a", p))
+    lines = []
+    while len(lines) < n:
+        k = rng.below(20)
+        if k < 4:
+            lines.append("isglob\t" + hx(pat()))
+        elif k < 13:
+            p = pat()
+            s = p if rng.chance(1, 8) else inst(p) if rng.chance(2, 3 if "[" in p else 6) else rng.choice(cg.FILES_POOL) if rng.chance(1, 5) else rng.choice(paths)
+            lines.append("match\t%s\t%s" % (hx(p), hx(s)))
+        elif k < 19 or len(lines) < 8:
+            c = cg.gen_resolve_case(rng, good)
+            if rng.chance(1, 3):     # entries the pools do not hold
+                c = (c[0], c[1] + [pat()], c[2] + ([pat()] if rng.chance(1, 2) else []))
+            if rng.chance(1, 3):     # the package's files are a set whatever the order / multiplicity they are listed in
+                c = (rng.shuffle(c[0] + rng.sample(c[0], rng.below(3))), c[1], c[2])
+            lines.append(cg.resolve_line(c))
+        else:
+            lines.append(rng.choice(["match\t" + hx(pat()), "isglob\tzz", "resolve\t-\t2a,2\t-", "isglob", "glob\t2a"]))
+    return lines[:n]
+
+
+def conv_glob(line, st):
+    f = line.split("\t")
+
+    def s(h):
+        """Wire.unhex: "-" is the empty string, else two hex digits per byte (a trailing odd digit is dropped by the driver, a
+        non-hex digit makes it answer driver-error: neither is mirrored)."""
+        if h != "-" and not re.fullmatch(r"([0-9a-fA-F]{2})*", h):
+            raise Unsupported("hex field the driver rejects or truncates")
+        return intern(st, unhx(h), 6)
+    lst = lambda x: gl([s(h) for h in x.split(",")] if x != "" else [])     # Wire.split_comma: "" is the empty list, "-" is [""]
+    if f[0] == "isglob" and len(f) == 2:
+        return app("CIsGlob", s(f[1]))
+    if f[0] == "match" and len(f) == 3:
+        return app("CMatch", s(f[1]), s(f[2]))
+    if f[0] == "resolve" and len(f) == 4:
+        return app("CResolve", lst(f[1]), lst(f[2]), lst(f[3]))
+    raise Unsupported(f[0] + " (arity or command the driver rejects)")
+
+
+ENGINES["glob"] = {"imports": "Str Glob", "gen": gen_glob, "conv": conv_glob}
 
 
 # ------------------------------------------------------------------ entry point for ./check
